@@ -139,7 +139,7 @@ def gen_string(rng, classes=None):
     r = rng.random()
     if r < 0.02:
         # long strings: a message may carry up to ~4 kB on the wire, the printed line is longer than that
-        n = rng.choice([255, 256, 1023, 1024, 4000, 4050, 4083, 4090, 4096, 5000, 8191, 8192, 16000])
+        n = rng.choice([255, 256, 1023, 1024, 4000, 4050, 4083, 4090, 4096, 5000, 8191, 8192, 16000, 65500, 65536, 70000, 131073])
         unit = rng.choice(['x', 'ab ', 'f(x), ', 'é', '[1.0] '])
         s = (unit * (n // len(unit) + 1))[:n]
     elif r < 0.75:
